@@ -3,46 +3,52 @@
    s odd, and g0 an element with g0^(2^(e-1)) = -1.  Instantiated at the end
    for BN254 (ff) and Goldilocks (ffg). *)
 From Coq Require Import ZArith Lia Znumtheory Zpow_facts.
-From Verif Require Import Lib.Params Lib.Powmod Model.SqrtCore.
+From Verif Require Import Lib.Params Lib.Powmod Lib.NumberTheory Lib.Primes Model.SqrtCore.
 Local Open Scope Z_scope.
-Set Default Timeout 60.
+Set Default Timeout 600.
 
 (* ------------------------------------------------------------------ *)
 (* Generic modular-arithmetic helpers                                  *)
 (* ------------------------------------------------------------------ *)
 
-Lemma pow_mod_l a k n : 0 < n -> ((a mod n) ^ k) mod n = (a ^ k) mod n.
+Lemma ts_pow_mod_l a k n : 0 < n -> ((a mod n) ^ k) mod n = (a ^ k) mod n.
 Proof. intros Hn; symmetry; apply Zpower_mod; assumption. Qed.
 
-Lemma pow_pow_mod a j k n :
+Lemma ts_pow_pow_mod a j k n :
   0 < n -> 0 <= j -> 0 <= k -> (((a ^ j) mod n) ^ k) mod n = (a ^ (j * k)) mod n.
 Proof.
-  intros Hn Hj Hk. rewrite pow_mod_l by assumption.
+  intros Hn Hj Hk. rewrite ts_pow_mod_l by assumption.
   rewrite Z.pow_mul_r by assumption. reflexivity.
 Qed.
 
-Lemma pow_mul_mod a b k n :
+Lemma ts_pow_mul_mod a b k n :
   ((a * b) ^ k) mod n = (((a ^ k) mod n) * ((b ^ k) mod n)) mod n.
 Proof. rewrite Z.pow_mul_l. apply Zmult_mod. Qed.
 
-Lemma pow_double a K : 0 <= K -> a ^ (2 * K) = a ^ K * a ^ K.
+Lemma ts_mod_mul_congr a a' b b' n :
+  a mod n = a' mod n -> b mod n = b' mod n -> (a * b) mod n = (a' * b') mod n.
+Proof.
+  intros Ha Hb. rewrite (Zmult_mod a b), (Zmult_mod a' b'), Ha, Hb. reflexivity.
+Qed.
+
+Lemma ts_pow_double a K : 0 <= K -> a ^ (2 * K) = a ^ K * a ^ K.
 Proof.
   intros HK. replace (2 * K) with (K + K) by lia. apply Z.pow_add_r; assumption.
 Qed.
 
-Lemma pow2_split a b : 0 <= a -> 0 <= b -> 2 ^ (a + b) = 2 ^ a * 2 ^ b.
+Lemma ts_pow2_split a b : 0 <= a -> 0 <= b -> 2 ^ (a + b) = 2 ^ a * 2 ^ b.
 Proof. intros; apply Z.pow_add_r; assumption. Qed.
 
-Lemma pow2_pos k : 0 <= k -> 0 < 2 ^ k.
+Lemma ts_pow2_pos k : 0 <= k -> 0 < 2 ^ k.
 Proof. intros; apply Z.pow_pos_nonneg; lia. Qed.
 
-Lemma pow2_succ k : 1 <= k -> 2 ^ k = 2 * 2 ^ (k - 1).
+Lemma ts_pow2_succ k : 1 <= k -> 2 ^ k = 2 * 2 ^ (k - 1).
 Proof.
   intros Hk. replace k with (Z.succ (k - 1)) at 1 by lia.
   apply Z.pow_succ_r; lia.
 Qed.
 
-Lemma minus_one_sq n : 0 < n -> ((n - 1) * (n - 1)) mod n = 1 mod n.
+Lemma ts_minus_one_sq n : 0 < n -> ((n - 1) * (n - 1)) mod n = 1 mod n.
 Proof.
   intros Hn. replace ((n - 1) * (n - 1)) with (1 + (n - 2) * n) by ring.
   apply Z.mod_add; lia.
@@ -68,7 +74,7 @@ Proof.
   - change (Z.of_nat 0) with 0. rewrite Z.pow_0_r, Z.pow_1_r.
     symmetry; apply Z.mod_small; assumption.
   - rewrite IH by (apply fm_range; assumption).
-    unfold fm. rewrite pow_mod_l by assumption.
+    unfold fm. rewrite ts_pow_mod_l by assumption.
     rewrite Nat2Z.inj_succ, Z.pow_succ_r by lia.
     rewrite Z.pow_mul_r by (try lia; apply Z.pow_nonneg; lia).
     rewrite Z.pow_2_r. reflexivity.
@@ -103,18 +109,6 @@ Proof.
 Qed.
 
 (* ------------------------------------------------------------------ *)
-(* Temporary: number-theory interface (to be replaced by Lib.NumberTheory) *)
-(* ------------------------------------------------------------------ *)
-Section NT.
-Hypothesis powmod_spec : forall a e n, 0 <= e -> 0 < n -> powmod a e n = (a ^ e) mod n.
-Hypothesis powmod_range : forall a e n, 0 < n -> 0 <= powmod a e n < n.
-Hypothesis sqrt_one : forall p x, prime p -> (x * x) mod p = 1 -> x mod p = 1 \/ x mod p = p - 1.
-Hypothesis euler_square : forall p a r, prime p -> 2 < p -> a mod p <> 0 ->
-  (r * r) mod p = a mod p -> (a ^ ((p - 1) / 2)) mod p = 1.
-Hypothesis euler_pm1 : forall p a, prime p -> 2 < p -> a mod p <> 0 ->
-  (a ^ ((p - 1) / 2)) mod p = 1 \/ (a ^ ((p - 1) / 2)) mod p = p - 1.
-
-(* ------------------------------------------------------------------ *)
 Section TS.
 Variables p e s legendreExp sqrtExp g0 : Z.
 Hypothesis Hp : prime p.
@@ -129,13 +123,13 @@ Hypothesis Hg : powmod g0 (2 ^ (e - 1)) p = p - 1.
 Lemma s_pos : 0 < s.
 Proof.
   pose proof (prime_ge_2 p Hp) as H2.
-  assert (H2e : 0 < 2 ^ e) by (apply pow2_pos; lia).
+  assert (H2e : 0 < 2 ^ e) by (apply ts_pow2_pos; lia).
   apply (Z.mul_pos_cancel_l (2 ^ e) s H2e). lia.
 Qed.
 
 Lemma half_exp : (p - 1) / 2 = 2 ^ (e - 1) * s.
 Proof.
-  rewrite Hps. rewrite (pow2_succ e) by lia.
+  rewrite Hps. rewrite (ts_pow2_succ e) by lia.
   replace (2 * 2 ^ (e - 1) * s) with (2 ^ (e - 1) * s * 2) by ring.
   apply Z.div_mul; lia.
 Qed.
@@ -144,9 +138,9 @@ Lemma p_gt2 : 2 < p.
 Proof.
   pose proof s_pos as Hs0.
   assert (H : 0 < 2 ^ (e - 1) * s).
-  { apply Z.mul_pos_pos; [apply pow2_pos; lia|assumption]. }
+  { apply Z.mul_pos_pos; [apply ts_pow2_pos; lia|assumption]. }
   assert (E : p - 1 = 2 * (2 ^ (e - 1) * s)).
-  { rewrite Hps, (pow2_succ e) by lia. ring. }
+  { rewrite Hps, (ts_pow2_succ e) by lia. ring. }
   lia.
 Qed.
 
@@ -155,7 +149,7 @@ Proof. pose proof p_gt2; lia. Qed.
 
 Lemma half_pos : 0 < (p - 1) / 2.
 Proof.
-  rewrite half_exp. apply Z.mul_pos_pos; [apply pow2_pos; lia|apply s_pos].
+  rewrite half_exp. apply Z.mul_pos_pos; [apply ts_pow2_pos; lia|apply s_pos].
 Qed.
 
 Lemma sqrtExp_nonneg : 0 <= sqrtExp.
@@ -193,18 +187,17 @@ Proof.
   (* g' = g^(2^(r-m)) *)
   assert (Eg' : g' = (g ^ (2 ^ (r - m))) mod p).
   { unfold g', fm, t. rewrite <- Zmult_mod.
-    rewrite (pow2_succ (r - m)) by lia.
-    replace (r - m - 1) with (r - m - 1) by lia.
-    rewrite pow_double by assumption. reflexivity. }
+    rewrite (ts_pow2_succ (r - m)) by lia.
+    rewrite ts_pow_double by assumption. reflexivity. }
   assert (Hg'o : (g' ^ (2 ^ (m - 1))) mod p = p - 1).
-  { rewrite Eg'. rewrite pow_pow_mod; try assumption; [|apply Z.pow_nonneg; lia].
-    rewrite <- pow2_split by lia.
+  { rewrite Eg'. rewrite ts_pow_pow_mod; try assumption; [|apply Z.pow_nonneg; lia].
+    rewrite <- ts_pow2_split by lia.
     replace (r - m + (m - 1)) with (r - 1) by lia. exact Hgo. }
   (* c = b^(2^(m-1)) is -1 *)
   assert (Hc : (b ^ (2 ^ (m - 1))) mod p = p - 1).
   { destruct (sqrt_one p ((b ^ (2 ^ (m - 1))) mod p) Hp) as [H1|H1].
-    - rewrite <- Zmult_mod. rewrite <- pow_double by assumption.
-      rewrite <- pow2_succ by lia. exact Hbm.
+    - rewrite <- Zmult_mod. rewrite <- ts_pow_double by assumption.
+      rewrite <- ts_pow2_succ by lia. exact Hbm.
     - rewrite Z.mod_mod in H1 by lia. contradiction.
     - rewrite Z.mod_mod in H1 by lia. exact H1. }
   split; [|split].
@@ -213,12 +206,11 @@ Proof.
     replace (y * t * (y * t)) with ((y * y) * (t * t)) by ring.
     rewrite Zmult_mod, Hyy. fold (fm p t t). fold g'.
     rewrite Z.mul_mod_idemp_l by lia.
-    rewrite Z.mul_mod_idemp_r by lia.
     f_equal; ring.
   - exact Hg'o.
-  - unfold b', fm. rewrite pow_mod_l by assumption.
-    rewrite pow_mul_mod. rewrite Hc, Hg'o.
-    rewrite minus_one_sq by assumption. apply Z.mod_small; lia.
+  - unfold b', fm. rewrite ts_pow_mod_l by assumption.
+    rewrite ts_pow_mul_mod. rewrite Hc, Hg'o.
+    rewrite ts_minus_one_sq by assumption. apply Z.mod_small; lia.
 Qed.
 
 Lemma ts_loop_correct x : forall fuel y b g r,
@@ -244,7 +236,8 @@ Proof.
   - set (m := 0 + Z.of_nat j) in *.
     assert (Hm : 1 <= m <= r - 1) by lia.
     assert (Hbm : (b ^ (2 ^ m)) mod p = 1).
-    { rewrite <- Hsj. rewrite sqn_spec by assumption. f_equal. f_equal. f_equal. lia. }
+    { rewrite <- Hsj. rewrite sqn_spec by assumption.
+      assert (Em : m = Z.of_nat j) by lia. rewrite Em. reflexivity. }
     assert (Hbm1 : (b ^ (2 ^ (m - 1))) mod p <> 1).
     { rewrite <- (sqn_spec_Z p (m - 1) b) by (try assumption; lia).
       apply Hmin. lia. }
@@ -266,12 +259,291 @@ Proof.
   pose proof p_gt2 as Hp2. assert (Hp0 : 0 < p) by lia.
   pose proof sqrtExp_nonneg as HE.
   assert (Ew : w = (x ^ sqrtExp) mod p) by (apply powmod_spec; assumption).
+  assert (Hw : w mod p = (x ^ sqrtExp) mod p) by (rewrite Ew; apply Z.mod_mod; lia).
   assert (Eb : b = (x ^ s) mod p).
   { unfold b, y, fm. rewrite Z.mul_mod_idemp_r by lia.
-    rewrite (Z.mul_comm x w), Z.mul_assoc.
-    rewrite Zmult_mod. rewrite <- (Zmult_mod w w).
-    rewrite Ew. rewrite <- Zmult_mod. rewrite Z.mul_mod_idemp_l by lia.
-    rewrite s_split at 1...
-Abort.
+    rewrite s_split. rewrite !Z.pow_add_r, Z.pow_1_r by lia.
+    apply ts_mod_mul_congr; [exact Hw|]. apply ts_mod_mul_congr; [reflexivity|exact Hw]. }
+  split.
+  - unfold b, y, fm. rewrite <- Zmult_mod.
+    rewrite (Z.mul_mod_idemp_r x) by lia.
+    rewrite (Z.mul_assoc x w ((x * w) mod p)).
+    rewrite Z.mul_mod_idemp_r by lia. reflexivity.
+  - rewrite sqn_spec_Z by (try lia; unfold b; apply fm_range; assumption).
+    rewrite Eb. pose proof s_pos as Hs0.
+    rewrite ts_pow_pow_mod by (try lia; apply Z.pow_nonneg; lia).
+    rewrite half_exp. f_equal. f_equal. ring.
+Qed.
+
+Lemma sqrt_cases x : 0 <= x < p ->
+  let t := (x ^ ((p - 1) / 2)) mod p in
+  (x = 0 /\ t = 0 /\ sqrt_model p sqrtExp g0 e x = SqrtOk 0) \/
+  (x <> 0 /\ t = 1 /\
+     exists z, sqrt_model p sqrtExp g0 e x = SqrtOk z /\ 0 <= z < p /\ (z * z) mod p = x) \/
+  (x <> 0 /\ t = p - 1 /\ sqrt_model p sqrtExp g0 e x = SqrtNone).
+Proof.
+  intros Hx t.
+  pose proof p_gt2 as Hp2. assert (Hp0 : 0 < p) by lia.
+  destruct (prologue x Hx) as (Hyy & Ht). cbv zeta in Hyy, Ht. fold t in Ht.
+  unfold sqrt_model. cbv zeta. rewrite Ht.
+  destruct (Z.eq_dec x 0) as [Ex|Nx].
+  - left. assert (Et : t = 0).
+    { unfold t. rewrite Ex. rewrite Z.pow_0_l by apply half_pos. apply Z.mod_0_l; lia. }
+    split; [assumption|]. split; [assumption|]. rewrite Et. reflexivity.
+  - right. assert (Hxm : x mod p <> 0) by (rewrite Z.mod_small; assumption).
+    destruct (euler_pm1 p x Hp Hp2 Hxm) as [E1|E1]; fold t in E1.
+    + left. split; [assumption|]. split; [assumption|].
+      rewrite E1. cbn [Z.eqb negb].
+      rewrite E1 in Ht.
+      rewrite sqn_spec_Z in Ht by (try lia; apply fm_range; assumption).
+      destruct (ts_loop_correct x (Z.to_nat e + 1) _ _ g0 e
+                  (fm_range p _ _ Hp0) (fm_range p _ _ Hp0) Hg0 ltac:(lia) Hyy)
+        as (z & Hz & Hzr & Hzz).
+      * rewrite <- powmod_spec by (try lia; apply Z.pow_nonneg; lia). exact Hg.
+      * exact Ht.
+      * lia.
+      * rewrite Hz. exists z. split; [reflexivity|]. split; [assumption|].
+        rewrite Hzz. apply Z.mod_small; assumption.
+    + right. split; [assumption|]. split; [assumption|].
+      rewrite E1.
+      rewrite (proj2 (Z.eqb_neq (p - 1) 0)) by lia.
+      rewrite (proj2 (Z.eqb_neq (p - 1) 1)) by lia. reflexivity.
+Qed.
+
+Lemma zero_square : (0 * 0) mod p = 0.
+Proof. pose proof p_pos. cbn [Z.mul]. apply Z.mod_0_l; lia. Qed.
+
+Lemma square_euler x r : 0 <= x < p -> x <> 0 -> (r * r) mod p = x ->
+  (x ^ ((p - 1) / 2)) mod p = 1.
+Proof.
+  intros Hx Nx Hr. pose proof p_gt2 as Hp2.
+  apply (euler_square p x r Hp Hp2); rewrite (Z.mod_small x p) by assumption; assumption.
+Qed.
+
+Theorem euler_converse : forall x, 0 <= x < p -> x <> 0 ->
+  (x ^ ((p - 1) / 2)) mod p = 1 -> exists r, 0 <= r < p /\ (r * r) mod p = x.
+Proof.
+  intros x Hx Nx Ht. pose proof p_gt2 as Hp2.
+  destruct (sqrt_cases x Hx) as [(E & _)|[(_ & _ & z & _ & Hz & Hzz)|(_ & E & _)]].
+  - contradiction.
+  - exists z. split; assumption.
+  - lia.
+Qed.
+
+Theorem sqrt_zero : sqrt_model p sqrtExp g0 e 0 = SqrtOk 0.
+Proof.
+  pose proof p_pos as Hp0.
+  destruct (sqrt_cases 0 ltac:(lia)) as [(_ & _ & H)|[(N & _)|(N & _)]].
+  - exact H.
+  - contradiction.
+  - contradiction.
+Qed.
+
+Theorem sqrt_square : forall x, 0 <= x < p -> (exists r, (r * r) mod p = x) ->
+  exists z, sqrt_model p sqrtExp g0 e x = SqrtOk z /\ 0 <= z < p /\ (z * z) mod p = x.
+Proof.
+  intros x Hx (r & Hr). pose proof p_gt2 as Hp2.
+  destruct (sqrt_cases x Hx) as [(E & _ & H)|[(_ & _ & H)|(N & E & _)]].
+  - exists 0. split; [assumption|]. split; [lia|]. rewrite E. apply zero_square.
+  - exact H.
+  - rewrite (square_euler x r Hx N Hr) in E. lia.
+Qed.
+
+Theorem sqrt_nonsquare : forall x, 0 <= x < p -> (forall r, (r * r) mod p <> x) ->
+  sqrt_model p sqrtExp g0 e x = SqrtNone.
+Proof.
+  intros x Hx Hns.
+  destruct (sqrt_cases x Hx) as [(E & _)|[(_ & _ & z & _ & _ & Hzz)|(_ & _ & H)]].
+  - exfalso. apply (Hns 0). rewrite E. apply zero_square.
+  - exfalso. exact (Hns z Hzz).
+  - exact H.
+Qed.
+
+Corollary sqrt_total : forall x, 0 <= x < p ->
+  sqrt_model p sqrtExp g0 e x <> SqrtOutOfFuel.
+Proof.
+  intros x Hx.
+  destruct (sqrt_cases x Hx) as [(_ & _ & H)|[(_ & _ & z & H & _)|(_ & _ & H)]];
+    rewrite H; discriminate.
+Qed.
+
+Corollary nonsquare_euler : forall x, 0 <= x < p -> (forall r, (r * r) mod p <> x) ->
+  (x ^ ((p - 1) / 2)) mod p = p - 1.
+Proof.
+  intros x Hx Hns.
+  destruct (sqrt_cases x Hx) as [(E & _)|[(_ & _ & z & _ & _ & Hzz)|(_ & H & _)]].
+  - exfalso. apply (Hns 0). rewrite E. apply zero_square.
+  - exfalso. exact (Hns z Hzz).
+  - exact H.
+Qed.
+
+Theorem legendre_spec : forall x, 0 <= x < p ->
+  (legendre_model p legendreExp x = 0 <-> x = 0) /\
+  (legendre_model p legendreExp x = 1 <-> (x <> 0 /\ exists r, (r * r) mod p = x)) /\
+  (legendre_model p legendreExp x = -1 <-> (forall r, (r * r) mod p <> x)).
+Proof.
+  intros x Hx. pose proof p_gt2 as Hp2. pose proof half_pos as Hh.
+  unfold legendre_model. cbv zeta.
+  rewrite powmod_spec by lia. rewrite HL.
+  destruct (sqrt_cases x Hx) as [(E & Et & _)|[(N & Et & z & _ & _ & Hzz)|(N & Et & _)]];
+    cbv zeta in Et; rewrite Et.
+  - cbn [Z.eqb]. split; [tauto|]. split.
+    + split; [discriminate|]. intros (N & _); contradiction.
+    + split; [discriminate|]. intros H. exfalso. apply (H 0). rewrite E. apply zero_square.
+  - cbn [Z.eqb]. split; [|split].
+    + split; [discriminate|]. intros; contradiction.
+    + split; [|reflexivity]. intros _. split; [assumption|]. exists z; assumption.
+    + split; [discriminate|]. intros H. exfalso. exact (H z Hzz).
+  - rewrite (proj2 (Z.eqb_neq (p - 1) 0)) by lia.
+    rewrite (proj2 (Z.eqb_neq (p - 1) 1)) by lia.
+    split; [|split].
+    + split; [discriminate|]. intros; contradiction.
+    + split; [discriminate|]. intros (_ & r & Hr). exfalso.
+      rewrite (square_euler x r Hx N Hr) in Et. lia.
+    + split; [|reflexivity]. intros _ r Hr.
+      rewrite (square_euler x r Hx N Hr) in Et. lia.
+Qed.
+
 End TS.
-End NT.
+
+Print Assumptions legendre_spec.
+Print Assumptions sqrt_zero.
+Print Assumptions sqrt_square.
+Print Assumptions sqrt_nonsquare.
+Print Assumptions sqrt_total.
+Print Assumptions euler_converse.
+Print Assumptions nonsquare_euler.
+
+(* ------------------------------------------------------------------ *)
+(* Instantiations: the constants hard-coded in ff/element.go (BN254     *)
+(* scalar field) and ffg/element.go (Goldilocks).                      *)
+(* ------------------------------------------------------------------ *)
+
+(* ff: r = 28, q - 1 = 2^28 * bn_s *)
+Definition bn_e : Z := 28.
+Definition bn_s : Z := (q - 1) / 2 ^ 28.
+(* _bLegendreExponentElement, _bSqrtExponentElement as written in element.go *)
+Definition bn_legendreExp : Z :=
+  0x183227397098d014dc2822db40c0ac2e9419f4243cdcb848a1f0fac9f8000000.
+Definition bn_sqrtExp : Z :=
+  0x183227397098d014dc2822db40c0ac2e9419f4243cdcb848a1f0fac9f.
+(* the Montgomery-form constant g of Sqrt, as four little-endian 64-bit limbs *)
+Definition bn_g_mont : Z :=
+  7164790868263648668 + W * (11685701338293206998 +
+  W * (6216421865291908056 + W * 1756667274303109607)).
+(* its value: bn_g_mont * R^-1 mod q, R = 2^256 *)
+Definition bn_g0 : Z :=
+  19103219067921713944291392827692070036145651957329286315305642004821462161904.
+
+Lemma bn_g0_mont : (bn_g0 * 2 ^ 256) mod q = bn_g_mont.
+Proof. vm_compute. reflexivity. Qed.
+
+Lemma bn_side_conditions :
+  0 < bn_e /\
+  bn_s mod 2 = 1 /\
+  q - 1 = 2 ^ bn_e * bn_s /\
+  bn_legendreExp = (q - 1) / 2 /\
+  bn_sqrtExp = (bn_s - 1) / 2 /\
+  0 <= bn_g0 < q /\
+  powmod bn_g0 (2 ^ (bn_e - 1)) q = q - 1.
+Proof.
+  split; [reflexivity|].
+  split; [vm_compute; reflexivity|].
+  split; [vm_compute; reflexivity|].
+  split; [vm_compute; reflexivity|].
+  split; [vm_compute; reflexivity|].
+  split; [split; [apply Z.leb_le|apply Z.ltb_lt]; vm_compute; reflexivity|].
+  vm_compute; reflexivity.
+Qed.
+
+(* ffg: r = 32, pg - 1 = 2^32 * (2^32 - 1) *)
+Definition gold_e : Z := 32.
+Definition gold_s : Z := 2 ^ 32 - 1.
+Definition gold_legendreExp : Z := 0x7fffffff80000000.
+Definition gold_sqrtExp : Z := 0x7fffffff.
+Definition gold_g_mont : Z := 15733474329512464024.
+(* gold_g_mont * (2^64)^-1 mod pg *)
+Definition gold_g0 : Z := 1753635133440165772.
+
+Lemma gold_g0_mont : (gold_g0 * 2 ^ 64) mod pg = gold_g_mont.
+Proof. vm_compute. reflexivity. Qed.
+
+Lemma gold_side_conditions :
+  0 < gold_e /\
+  gold_s mod 2 = 1 /\
+  pg - 1 = 2 ^ gold_e * gold_s /\
+  gold_legendreExp = (pg - 1) / 2 /\
+  gold_sqrtExp = (gold_s - 1) / 2 /\
+  0 <= gold_g0 < pg /\
+  powmod gold_g0 (2 ^ (gold_e - 1)) pg = pg - 1.
+Proof.
+  split; [reflexivity|].
+  split; [vm_compute; reflexivity|].
+  split; [vm_compute; reflexivity|].
+  split; [vm_compute; reflexivity|].
+  split; [vm_compute; reflexivity|].
+  split; [split; [apply Z.leb_le|apply Z.ltb_lt]; vm_compute; reflexivity|].
+  vm_compute; reflexivity.
+Qed.
+
+(* All seven results, bundled, for a modulus satisfying the side conditions *)
+Definition ts_results (p e legendreExp sqrtExp g0 : Z) : Prop :=
+  (forall x, 0 <= x < p ->
+     (legendre_model p legendreExp x = 0 <-> x = 0) /\
+     (legendre_model p legendreExp x = 1 <-> (x <> 0 /\ exists r, (r * r) mod p = x)) /\
+     (legendre_model p legendreExp x = -1 <-> (forall r, (r * r) mod p <> x))) /\
+  sqrt_model p sqrtExp g0 e 0 = SqrtOk 0 /\
+  (forall x, 0 <= x < p -> (exists r, (r * r) mod p = x) ->
+     exists z, sqrt_model p sqrtExp g0 e x = SqrtOk z /\ 0 <= z < p /\ (z * z) mod p = x) /\
+  (forall x, 0 <= x < p -> (forall r, (r * r) mod p <> x) ->
+     sqrt_model p sqrtExp g0 e x = SqrtNone) /\
+  (forall x, 0 <= x < p -> sqrt_model p sqrtExp g0 e x <> SqrtOutOfFuel) /\
+  (forall x, 0 <= x < p -> x <> 0 -> (x ^ ((p - 1) / 2)) mod p = 1 ->
+     exists r, 0 <= r < p /\ (r * r) mod p = x) /\
+  (forall x, 0 <= x < p -> (forall r, (r * r) mod p <> x) ->
+     (x ^ ((p - 1) / 2)) mod p = p - 1).
+
+Lemma ts_results_intro p e s legendreExp sqrtExp g0 :
+  prime p -> 0 < e -> s mod 2 = 1 -> p - 1 = 2 ^ e * s ->
+  legendreExp = (p - 1) / 2 -> sqrtExp = (s - 1) / 2 ->
+  0 <= g0 < p -> powmod g0 (2 ^ (e - 1)) p = p - 1 ->
+  ts_results p e legendreExp sqrtExp g0.
+Proof.
+  intros Hp He Hs Hps HL HS Hg0 Hg. unfold ts_results.
+  split; [exact (legendre_spec p e s legendreExp sqrtExp g0 Hp He Hs Hps HL HS Hg0 Hg)|].
+  split; [exact (sqrt_zero p e s sqrtExp g0 Hp He Hs Hps HS Hg0 Hg)|].
+  split; [exact (sqrt_square p e s sqrtExp g0 Hp He Hs Hps HS Hg0 Hg)|].
+  split; [exact (sqrt_nonsquare p e s sqrtExp g0 Hp He Hs Hps HS Hg0 Hg)|].
+  split; [exact (sqrt_total p e s sqrtExp g0 Hp He Hs Hps HS Hg0 Hg)|].
+  split; [exact (euler_converse p e s sqrtExp g0 Hp He Hs Hps HS Hg0 Hg)|].
+  exact (nonsquare_euler p e s sqrtExp g0 Hp He Hs Hps HS Hg0 Hg).
+Qed.
+
+Lemma bn_tonelli_shanks_given_prime :
+  prime q -> ts_results q bn_e bn_legendreExp bn_sqrtExp bn_g0.
+Proof.
+  intros Hq.
+  destruct bn_side_conditions as (He & Hs & Hps & HL & HS & Hg0 & Hg).
+  exact (ts_results_intro q bn_e bn_s _ _ _ Hq He Hs Hps HL HS Hg0 Hg).
+Qed.
+
+Lemma gold_tonelli_shanks_given_prime :
+  prime pg -> ts_results pg gold_e gold_legendreExp gold_sqrtExp gold_g0.
+Proof.
+  intros Hq.
+  destruct gold_side_conditions as (He & Hs & Hps & HL & HS & Hg0 & Hg).
+  exact (ts_results_intro pg gold_e gold_s _ _ _ Hq He Hs Hps HL HS Hg0 Hg).
+Qed.
+
+Theorem bn_tonelli_shanks : ts_results q bn_e bn_legendreExp bn_sqrtExp bn_g0.
+Proof. exact (bn_tonelli_shanks_given_prime q_prime). Qed.
+
+Theorem gold_tonelli_shanks : ts_results pg gold_e gold_legendreExp gold_sqrtExp gold_g0.
+Proof. exact (gold_tonelli_shanks_given_prime pg_prime). Qed.
+
+Print Assumptions bn_side_conditions.
+Print Assumptions gold_side_conditions.
+Print Assumptions bn_tonelli_shanks_given_prime.
+Print Assumptions gold_tonelli_shanks_given_prime.
+Print Assumptions bn_tonelli_shanks.
+Print Assumptions gold_tonelli_shanks.
